@@ -524,7 +524,7 @@ func modifyAfterDecode(t byte, wire []byte, detail map[string]interface{}) {
 		out.Violation("c03:modify-panic:"+tn, fmt.Sprint(pan), detail)
 		return
 	}
-	want := rc.Encode(canonical(libFields(m)))
+	want := rc.Encode(libFields(m)) // no merging of duplicate filters here: a decoded packet keeps what it carried
 	b, ln, n, err, pan := libEncode(m)
 	if pan != nil || err != nil || ln != n || !bytes.Equal(b[:max(n, 0)], want) {
 		out.Violation("c03:modify-after-decode:"+tn, fmt.Sprintf("decoded, changed through %s, encoded: Len()=%d wrote %d err=%v panic=%v; bytes %s, MQTT encoding of its fields %s", what, ln, n, err, pan, hex(b[:max(n, 0)]), hex(want)), detail)
